@@ -69,6 +69,47 @@ def native_run(shape, kind, pres, assign, flt='f64', release=True):
 
 
 # ---------------------------------------------------------------------------------------------
+class SolverProxy:
+    """Assertion stack; every check runs a fresh, non-incremental nlsat solver. (z3's incremental
+    core falls back to the nla extension, whose bignum patching loops ignore both the timeout
+    and interrupts; nlsat honours them.)"""
+
+    def __init__(self, timeout_ms):
+        self.stack = [[]]
+        self.timeout_ms = timeout_ms
+        self._model = None
+
+    def add(self, *cs):
+        self.stack[-1].extend(cs)
+
+    def push(self):
+        self.stack.append([])
+
+    def pop(self):
+        self.stack.pop()
+
+    def assertions(self):
+        return [a for fr in self.stack for a in fr]
+
+    def check(self):
+        s = z3.Tactic('qfnra-nlsat').solver()
+        s.set('timeout', self.timeout_ms)
+        for a in self.assertions():
+            s.add(a)
+        r = s.check()
+        self._model = s.model() if r == z3.sat else None
+        return r
+
+    def model(self):
+        return self._model
+
+    def to_smt2(self):
+        s = z3.Solver()
+        for a in self.assertions():
+            s.add(a)
+        return s.to_smt2()
+
+
 class Run:
     """one invocation of a property check: statistics, violations, evidence"""
 
@@ -102,13 +143,19 @@ class Run:
             self.samples.append(s)
 
     def solver(self, logic=None):
-        s = z3.SolverFor(logic) if logic else z3.Solver()
-        s.set('timeout', self.timeout_ms)
-        return s
+        if logic == 'euf':
+            s = z3.Solver()
+            s.set('timeout', self.timeout_ms)
+            return s
+        return SolverProxy(self.timeout_ms)
 
     def check(self, s, *extra):
         t = time.time()
-        r = s.check(*extra)
+        try:
+            with ir.z3_deadline(self.timeout_ms / 1000.0 + 5):
+                r = s.check(*extra)
+        except z3.Z3Exception:
+            r = z3.unknown
         self.solver_time += time.time() - t
         self.queries += 1
         return r
@@ -120,17 +167,16 @@ MERGE_LIST = ['violations', 'inconclusive', 'notes', 'kani', 'known']
 MERGE_SET = ['case_keys', 'functions', 'instantiations']
 
 
-def parallel(run, fn, chunks, jobs=None):
-    """run fn(subrun, chunk) over chunks in forked worker processes and merge the statistics"""
+def parallel(run, fn, chunks, jobs=None, chunk_timeout=None):
+    """run fn(subrun, chunk) over chunks in forked worker processes (one process per chunk, hard
+    wall-clock limit per chunk) and merge the statistics"""
     import multiprocessing as mp
     build_symtrace()
     jobs = jobs or int(os.environ.get('VERIF_JOBS', '14'))
-    if jobs <= 1 or len(chunks) <= 1:
-        for ch in chunks:
-            fn(run, ch)
-        return
+    chunk_timeout = chunk_timeout or (900 if run.tier == 'quick' else 7200)
+    ctx = mp.get_context('fork')
 
-    def work(idx):
+    def work(idx, conn):
         ch = chunks[idx]   # chunks are inherited through fork (they may hold closures)
         sub = Run(run.prop, run.tier, run.seed)
         sub.timeout_ms = run.timeout_ms
@@ -145,20 +191,56 @@ def parallel(run, fn, chunks, jobs=None):
         d = {k: getattr(sub, k) for k in MERGE_NUM + MERGE_LIST}
         d.update({k: sorted(getattr(sub, k)) for k in MERGE_SET})
         d['samples'] = sub.samples
-        return d
+        if hasattr(sub, 'notes_euf'):
+            d['notes_euf'] = sub.notes_euf
+        conn.send(d)
+        conn.close()
 
-    ctx = mp.get_context('fork')
-    caller = _Caller(work)   # registered before the workers are forked
-    with ctx.Pool(min(jobs, len(chunks))) as pool:
-        for d in pool.imap_unordered(caller, range(len(chunks))):
-            for k in MERGE_NUM:
-                setattr(run, k, getattr(run, k) + d[k])
-            for k in MERGE_LIST:
-                getattr(run, k).extend(d[k])
-            for k in MERGE_SET:
-                getattr(run, k).update(d[k])
-            for smp in d['samples']:
-                run.sample(smp)
+    def merge(d):
+        for k in MERGE_NUM:
+            setattr(run, k, getattr(run, k) + d[k])
+        for k in MERGE_LIST:
+            getattr(run, k).extend(d[k])
+        for k in MERGE_SET:
+            getattr(run, k).update(d[k])
+        for smp in d['samples']:
+            run.sample(smp)
+        if 'notes_euf' in d:
+            cur = getattr(run, 'notes_euf', [0, 0])
+            run.notes_euf = [cur[0] + d['notes_euf'][0], cur[1] + d['notes_euf'][1]]
+
+    pending = list(range(len(chunks)))
+    running = {}   # idx -> (proc, conn, t0)
+    while pending or running:
+        while pending and len(running) < jobs:
+            idx = pending.pop(0)
+            pc, cc = ctx.Pipe(duplex=False)
+            p = ctx.Process(target=work, args=(idx, cc))
+            p.start()
+            cc.close()
+            running[idx] = (p, pc, time.time())
+        done = []
+        for idx, (p, pc, t0) in running.items():
+            if pc.poll(0):
+                try:
+                    merge(pc.recv())
+                except EOFError:
+                    run.inconclusive.append({'reason': f'worker for chunk {idx} died without a result'})
+                p.join(5)
+                done.append(idx)
+            elif not p.is_alive():
+                run.inconclusive.append({'reason': f'worker for chunk {idx} died without a result'})
+                done.append(idx)
+            elif time.time() - t0 > chunk_timeout:
+                p.kill()
+                p.join(5)
+                run.inconclusive.append({'reason': f'chunk {idx} exceeded the wall-clock limit of {chunk_timeout}s '
+                                                   '(solver did not return); its obligations are undecided'})
+                done.append(idx)
+        for idx in done:
+            running.pop(idx)
+        if not done:
+            time.sleep(0.05)
 
 
 class _Caller:
@@ -220,6 +302,7 @@ class PathCtx:
     def __init__(self, run, case, path, terms, assume=()):
         self.run, self.case, self.path, self.terms = run, case, path, terms
         self.enc = ir.RealEnc()
+        self.enc.link_pow_exp = case['kind'].startswith(('prog;', 'powd', 'az:powd'))
         self.assume = list(assume)
         self.cond_z3 = [self.enc.cond(c[0], terms[c[1]], terms[c[2]], c[3]) for c in path['conds']]
         self.assume_z3 = [enc_constraint(self.enc, c) for c in self.assume]
@@ -366,6 +449,30 @@ def _find_witness(run, case, pctx, name, lhs, rhs, model, revars, mono, rng):
     return False, last
 
 
+def strengthen_guards(run, s, budget=40):
+    """Guarded axioms `g => body` whose guard is entailed by the domain and path condition are
+    replaced by `body` (so that nlsat's equation solving can eliminate the atom). Each guard is
+    itself decided by the solver."""
+    frame = s.stack[0]
+    guards = {}
+    for k, a in enumerate(frame):
+        if z3.is_implies(a):
+            guards.setdefault(a.arg(0).get_id(), (a.arg(0), []))[1].append(k)
+    n = 0
+    for gid, (g, idxs) in guards.items():
+        if n >= budget:
+            break
+        n += 1
+        s.push()
+        s.add(z3.Not(g))
+        r = run.check(s)
+        s.pop()
+        if r == z3.unsat:
+            for k in idxs:
+                frame[k] = frame[k].arg(1)
+            frame.append(g)
+
+
 def decide_path(run, case, pctx, obs, role, vacuity=True, revars=None, split=True, tol=None):
     """Decides all obligations of one path. obs: list of (name, lhs IR|None, rhs IR).
     Returns 'infeasible' | number of failed obligations."""
@@ -408,6 +515,7 @@ def decide_path(run, case, pctx, obs, role, vacuity=True, revars=None, split=Tru
         return 1
     pctx.feasible = True
     failed = 0
+    strengthen_guards(run, s)
     # ---- definedness of every partial operation on the domain and path
     for (constraint, what) in enc.defs:
         run.obligations += 1
